@@ -223,6 +223,9 @@ func (e *Engine) Exec(tx Tx) *Report {
 	post := e.C.DumpAll()
 	rep.PreHash, rep.PostHash = chain.HashDump(e.prev), chain.HashDump(post)
 	rc.Cov.Evaluations++
+	if rc.Cov.Evaluations%701 == 1 {
+		rc.Cov.Sample(map[string]interface{}{"tx": trunc(describeTx(&tx), 600), "note": tx.Note, "model_verdict": txExp.String(), "succeeded": rep.OK, "model_state": e.M.Hash()})
+	}
 	kinds := make([]string, len(rep.Exp))
 	for i, ex := range rep.Exp {
 		kinds[i] = ex.Kind
